@@ -36,7 +36,7 @@ func init() {
 		ID:    "C07",
 		Level: "exploration",
 		Rule: "cases are PRNG-generated operation sequences (commit on frontier / on stale parent, rollback, open view at any past commit, Get/Has/prefix scan, write through view, Subset, Snapshot, Changes+replay, reopen) " +
-			"over a 14-key alphabet with shared prefixes and empty values, on the LevelDB and the in-memory manager, plus concurrent writer/readers runs under -race; " +
+			"over a 15-key alphabet (incl. the empty key) with shared prefixes and empty values, on the LevelDB and the in-memory manager, plus concurrent writer/readers runs under -race; " +
 			"distinct_nontrivial counts distinct (manager, operation, outcome class) triples and distinct operation-sequence hashes that contained at least one historical read after a later commit or rollback",
 		Cases:       c07Cases,
 		Run:         c07Run,
@@ -95,6 +95,7 @@ var c07Alphabet = [][]byte{
 	[]byte("a"), []byte("ab"), []byte("abc"), []byte("abd"), []byte("b"), []byte("ba"),
 	[]byte("a\x00"), []byte("a\xff"), []byte("c"), []byte("ca"), []byte("cb"), []byte("d"),
 	{0x7f}, {0xff, 0xff},
+	{}, // the empty key (also what a key equal to a Subset prefix becomes inside the Subset)
 }
 var c07Prefixes = [][]byte{nil, []byte("a"), []byte("ab"), []byte("b"), []byte("c"), []byte("z"), {0xff}}
 
